@@ -72,7 +72,8 @@ def suite_hist_api(seed, tier):
     n = 150 if tier == "quick" else 4000
     rng = random.Random(seed + 31)
     labelled = [hist.gen_history(rng, max_ops=7, max_rows=16, user_labels=True) for _ in range(n // 6)]
-    hs = gen_histories(seed, n, max_ops=10, max_rows=24) + gen_switch(seed, n // 5) + labelled
+    hs = gen_histories(seed, n, max_ops=10, max_rows=24) + gen_switch(seed, n // 5) + labelled \
+        + gen_refine_twice(seed, n // 10)
     return _run("hist-api", hs, walk=False)
 
 
@@ -102,11 +103,26 @@ def gen_boundary(seed, tier):
                "thr": rng.choice([0.0, 0.55, 0.8]) if k else 0.0, "bf": rng.choice([2, 3, 5])}
         ops = [{"op": "fit", "rows": rows, "labels": None, "form": "unpacked-array", "bad_at": None}]
         if rng.random() < 0.7:
-            ops.append({"op": "recluster", "iters": 1, "extra": 0.0, "shuffle": False, "seed": 0,
+            # (a shuffled list of leaf clusters interleaves the counter widths of big and small clusters)
+            ops.append({"op": "recluster", "iters": 1, "extra": 0.0, "shuffle": k % 2 == 1, "seed": k,
                         "stop_early": False})
         if rng.random() < 0.5:
             ops.append({"op": "refine", "n_largest": 1, "initial_mol": 0})
         hs.append({"cfg": cfg, "nf": nf, "ops": ops})
+    # a cluster of >= 256 members next to many small ones, then a SHUFFLED recluster
+    for k in range(1 if tier == "quick" else 4):
+        nf = 8
+        big = [[1, 1, 1, 1, 0, 0, 0, 0] for _ in range(rng.choice([260, 300]))]
+        small = []
+        for g in range(6):
+            own = [0, 0, 0, 0] + [1 if (g >> b) & 1 else 0 for b in range(3)] + [1]
+            small += [own] * rng.randint(2, 5)
+        rows = big + small
+        rng.shuffle(rows)
+        hs.append({"cfg": {"crit": "diameter", "tol": None, "thr": 0.9, "bf": 50}, "nf": nf,
+                   "ops": [{"op": "fit", "rows": rows, "labels": None, "form": "unpacked-array", "bad_at": None},
+                           {"op": "recluster", "iters": 1 + k % 2, "extra": 0.0, "shuffle": True, "seed": k,
+                            "stop_early": False}]})
     return hs
 
 
@@ -148,6 +164,27 @@ def gen_merge_boundary(seed, tier):
             hs.append({"cfg": {"crit": "diameter", "tol": None, "thr": 0.8, "bf": 50}, "nf": nf,
                        "ops": [{"op": "fit", "rows": rows, "labels": None, "form": "unpacked-array", "bad_at": None},
                                {"op": "setcfg", "crit": None, "tol": None, "thr": 0.3, "bf": None}, tail]})
+    return hs
+
+
+def gen_refine_twice(seed, n):
+    """noisy families, a shuffled recluster (member lists stop being ascending), then two refinements
+    with X handed over as a .npy path / packed path / array"""
+    rng = random.Random(seed + 19)
+    hs = []
+    for _ in range(n):
+        nf = rng.choice([8, 12, 16])
+        rows, _ = hist.gen_fps(rng, rng.randint(20, 40), nf, None, rng.choice([0.1, 0.15, 0.2]))
+        crit = rng.choice(["diameter", "radius", "tolerance-diameter"])
+        cfg = {"crit": crit, "tol": 0.05 if crit in hist.HAS_TOL else None,
+               "thr": rng.choice([0.3, 0.4, 0.5, 0.65]), "bf": rng.choice([3, 5, 50])}
+        ops = [{"op": "fit", "rows": rows, "labels": None, "form": "unpacked-array", "bad_at": None},
+               {"op": "recluster", "iters": 1, "extra": 0.0, "shuffle": True, "seed": rng.randint(0, 99),
+                "stop_early": False}]
+        for _k in range(2):
+            ops.append({"op": "refine", "n_largest": 1, "initial_mol": 0,
+                        "xform": rng.choice(["path", "packed-path", "array"])})
+        hs.append({"cfg": cfg, "nf": nf, "ops": ops})
     return hs
 
 
@@ -202,7 +239,7 @@ def search_hist(which):
             if isinstance(d, dict) and "history" in d:
                 cands.append(d["history"])
         cands += gen_exact_boundary(seed + 1, "thorough") + gen_merge_boundary(seed + 1, "thorough") \
-            + gen_switch(seed + 1, 150)
+            + gen_switch(seed + 1, 150) + gen_refine_twice(seed + 1, 120)
         cands += gen_boundary(seed + 1, "quick")[:2]
         cands += gen_histories(seed + 1, 150 if tier == "quick" else 1500, max_ops=10, max_rows=24)
         for h in cands:
